@@ -301,6 +301,7 @@ def run(ctx):
     # ------------------------------------------------------------------ C06-delimited
     ctx.rule("C06-delimited", "tokens end only at delimiters: last event before a token exit is delimiter evidence")
     delimited(ctx, fb, disp)
+    consumption(ctx, fb)
     return EXPLANATION, NOT_DECIDED
 
 
@@ -326,6 +327,8 @@ def delimited(ctx, fb, disp):
                 may[f.name] = True
                 changed = True
 
+    checkers = set()
+
     def evidence_blocks(f, checked):
         ev = set()
         p = Prov(f)
@@ -334,7 +337,7 @@ def delimited(ctx, fb, disp):
             if c == td_name:
                 # result must be propagated (`?`) or returned
                 ev.add(t["target"] if t.get("target") is not None else b)
-            elif c in checked and may.get(c):
+            elif (c in checked and may.get(c)) or c in checkers:
                 ev.add(t["target"] if t.get("target") is not None else b)
             elif callee_matches(t, "std::iter::Peekable::peek"):
                 sw = mir.result_switch_after(f, b)
@@ -386,6 +389,15 @@ def delimited(ctx, fb, disp):
                         ev.add(none_t)
         return ev
 
+    # pure checkers: helpers that consume nothing and return normally only past delimiter evidence
+    # (least fixpoint, so a helper may itself go through another helper)
+    for _ in range(3):
+        for f in scanners:
+            if may[f.name] or f.name in (adv_name, td_name) or f.name in checkers:
+                continue
+            ev = evidence_blocks(f, set())
+            if ev and mir.paths_avoiding(f, 0, f.return_blocks(), ev | err_blocks(f)) is None:
+                checkers.add(f.name)
     # summaries: ends_checked (greatest fixpoint: start optimistic for non-recursive helpers)
     checked = set()
     for _ in range(4):
@@ -414,6 +426,7 @@ def delimited(ctx, fb, disp):
             break
         checked = new
     ctx.inst("C06-delimited", "summaries", {"ends_with_delimiter_evidence": sorted(x.rsplit("::", 1)[-1] for x in checked),
+                                            "pure_checkers": sorted(x.rsplit("::", 1)[-1] for x in checkers),
                                             "consuming": sorted(k.rsplit("::", 1)[-1] for k, v in may.items() if v)})
 
     CLASSES = ("Identifier", "Integer", "Real", "Rational", "Boolean", "Character")
@@ -498,3 +511,137 @@ def infeasible(fb, f, disp):
                 out.add(t["otherwise"])
     _INF_CACHE[key] = out
     return out
+
+
+# =============================================================================================
+# C06-consume-inspected: no character leaves the stream without having been looked at
+
+
+def _inspected(f, local, depth=6, seen=None):
+    """Is the value in `local` looked at (matched, compared, stored) rather than dropped?"""
+    seen = seen if seen is not None else set()
+    if local in seen or depth < 0:
+        return False
+    seen.add(local)
+    for b, blk in enumerate(f.blocks):
+        if blk["cleanup"]:
+            continue
+        for s in blk["stmts"]:
+            if s["k"] != "assign":
+                continue
+            rv = s["rv"]
+            used = any(p["local"] == local for p in mir.rv_places(rv))
+            if not used:
+                continue
+            if rv["k"] == "aggregate":
+                return True
+            if rv["k"] in ("binop", "unop"):
+                return True
+            if s["place"]["local"] == 0:
+                return True
+            if _inspected(f, s["place"]["local"], depth - 1, seen):
+                return True
+        t = blk["term"]
+        if t["k"] == "switch" and mir.op_local(t["discr"]) == local:
+            return True
+        if t["k"] == "call" and any(mir.op_local(a) == local for a in t["args"]):
+            if callee_matches(t, "Option<T>::take", "Option::take", "Option<T>::unwrap", "Option::unwrap", "Option<T>::as_ref", "Option::as_ref",
+                              "Option<T>::as_mut", "Option::as_mut", "Deref>::deref", "DerefMut>::deref_mut", "Clone>::clone",
+                              "Option<T>::copied", "Option::copied", "Option<T>::cloned", "Option::cloned"):
+                if _inspected(f, t["dest"]["local"], depth - 1, seen):
+                    return True
+            else:
+                return True
+    return False
+
+
+def consumption(ctx, fb):
+    ctx.rule("C06-consume-inspected", "no character is consumed unseen: with one character of lookahead, `advance(k)` may take at "
+                                      "most the character just peeked plus one whose value the caller then examines (so layout "
+                                      "can only drop characters the lexer classified as layout)")
+    scanners = [f for f in fb.all("lib") if f.name.startswith(LEX) and "{closure" not in f.name]
+    by = {f.name: f for f in scanners}
+    adv_name = LEX + "advance"
+    entry = {f.name: 1 for f in scanners}
+    exit_ = {f.name: 1 for f in scanners}
+    called = set()
+    entry[LEX + "try_next"] = 0
+
+    def flow(f, record=None):
+        """forward dataflow of `known lookahead` (0/1); returns (state at returns, {callee: min state at its call sites})"""
+        st = {0: entry[f.name]}
+        work = [0]
+        sites = {}
+        while work:
+            b = work.pop()
+            s = st[b]
+            t = f.blocks[b]["term"]
+            out = s
+            if t["k"] == "call":
+                c = callee(t) or ""
+                if c == adv_name:
+                    k = mir.const_int(t["args"][1]) if len(t["args"]) > 1 else None
+                    if record is not None and not f.blocks[b]["cleanup"]:
+                        record.append((b, t, k, s))
+                    out = 0
+                elif callee_matches(t, "std::iter::Peekable::peek"):
+                    out = 1
+                elif callee_matches(t, "<std::iter::Peekable as std::iter::Iterator>::next", "Peekable::next_if", "Peekable::next_if_eq"):
+                    if record is not None and not f.blocks[b]["cleanup"]:
+                        record.append((b, t, 1, s))
+                    out = 0
+                elif c in by and c != f.name:
+                    sites[c] = min(sites.get(c, 1), s)
+                    out = exit_[c]
+                elif c == f.name:
+                    sites[c] = min(sites.get(c, 1), s)
+                    out = exit_[c]
+            for n in f.succs(b):
+                if f.blocks[n]["cleanup"]:
+                    continue
+                if n not in st or out < st[n]:
+                    st[n] = out
+                    work.append(n)
+        rets = [st[b] for b in f.return_blocks() if b in st]
+        return (min(rets) if rets else 1), sites
+    for _ in range(12):
+        changed = False
+        for f in scanners:
+            if f.name == adv_name:
+                continue
+            ex, sites = flow(f)
+            if ex < exit_[f.name]:
+                exit_[f.name] = ex
+                changed = True
+            for c, s in sites.items():
+                called.add(c)
+                if c != LEX + "try_next" and s < entry[c]:
+                    entry[c] = s
+                    changed = True
+        if not changed:
+            break
+    n = 0
+    for f in scanners:
+        if f.name == adv_name:
+            continue
+        rec = []
+        flow(f, rec)
+        short = f.name.rsplit("::", 1)[-1]
+        for b, t, k, s in rec:
+            n += 1
+            used = 1 if _inspected(f, t["dest"]["local"]) else 0
+            unseen = None if k is None else k - s - used
+            ctx.inst("C06-consume-inspected", "%s/advance@bb%d" % (short, b), {"count": k, "lookahead_known": s, "result_examined": bool(used)})
+            ctx.oblige(unseen is not None and unseen <= 0)
+            if k is None:
+                ctx.report("C06-consume-inspected", "%s/advance-count" % short, "advance is called with a non-constant count", where_of(f, t))
+            elif unseen > 0:
+                ctx.report("C06-consume-inspected", "%s/unseen" % short,
+                           "`%s` consumes %d character(s) here but only %d are known (%s%s): %d character(s) of the input are dropped "
+                           "without being looked at — data next to this layout/prefix changes silently" % (
+                               (callee(t) or "").rsplit("::", 1)[-1], k, s + used, "one peeked" if s else "none peeked",
+                               ", result examined" if used else ", result discarded", unseen), where_of(f, t))
+    ctx.inst("C06-consume-inspected", "summaries", {"entry_lookahead": {k.rsplit("::", 1)[-1]: v for k, v in sorted(entry.items())},
+                                                    "exit_lookahead": {k.rsplit("::", 1)[-1]: v for k, v in sorted(exit_.items())}})
+    if n < 15:
+        ctx.report("C06-consume-inspected", "floor", "only %d consumption sites analysed (expected >= 15)" % n)
